@@ -165,6 +165,14 @@ def run_case(ctx, name, params):
                             tl.depth = 0
                     return sync_individual
                 pt.wrap_attr(SqliteDataStore, "sync_individual", mk_sync)
+            if r.random() < 0.3:
+                # declared problem options that concern other subsystems (the remote executor's time limit ...) at the edges of their
+                # ranges: a batch evaluated by worker threads does not depend on them
+                try:
+                    p1.options["time_out"] = r.choice([0.001, 0.01, 0.05])
+                    ctx.count("batches_with_a_tiny_time_out_option")
+                except Exception:
+                    pass
             a1 = DummyAlgorithm(p1)
             a1.options["max_processes"] = workers
             stale_address = None
